@@ -16,7 +16,7 @@ pub fn check(tier: Tier) -> Check {
         also_rel: false,
         property: "C08",
         level: "model_checking",
-        rule: "all sequences of inbound PUBLISH (QoS 0/1/2 x DUP x packet id x subscription identifier absent / live stream / dropped stream / never registered) and PUBREL, with one client publish interleaved; the wire must show exactly one PUBACK/PUBREC/PUBCOMP per packet with its identifier, in arrival order; non-trivial = at least one acknowledgement was due".into(),
+        rule: "all sequences of inbound PUBLISH (QoS 0/1/2 x DUP x packet id x subscription identifier absent / live stream / dropped stream / never registered) and PUBREL (also several packets arriving in one read, repeated PUBRELs and PUBRELs for identifiers never seen), with one client publish interleaved; the wire must show exactly one PUBACK/PUBREC/PUBCOMP per packet with its identifier, in arrival order; non-trivial = at least one acknowledgement was due".into(),
         assumptions: vec!["the reason code inside the client's acknowledgement is unconstrained".into()],
         parts,
     }
@@ -69,6 +69,12 @@ pub fn scenario(name: &str, params: &Value) -> Scenario {
             for pid in &pids {
                 e.push(Ev::Deliver(pubrel_in(*pid)));
             }
+            // several inbound packets in one read: the acknowledgements must keep arrival order
+            let a = pids[0];
+            let b = pids[pids.len() - 1];
+            e.push(Ev::DeliverBatch(vec![inbound(1, false, a, &[live], "b1"), inbound(2, false, b, &[], "b2")]));
+            e.push(Ev::DeliverBatch(vec![inbound(2, false, a, &[], "b3"), pubrel_in(a), inbound(1, true, a, &[dropped], "b4")]));
+            e.push(Ev::DeliverBatch(vec![pubrel_in(b), pubrel_in(b), inbound(0, false, 0, &[live], "b5"), inbound(1, false, b, &[77], "b6")]));
             let pubs = s
                 .m
                 .ops
